@@ -191,7 +191,9 @@ def build_wrapped(spec, opts):
     return g, xx
 
 
-ELEM_OPS = ["add", "mul", "neg", "self_mul", "astype", "pickle", "copy", "where", "sqrt", "transpose", "compare"]
+# "use": the geo-registration is read and used (pixel<->world conversion through the cached .odc accessor) - it
+# leaves the array unchanged, but fills lazily built helpers that travel with a later pickle
+ELEM_OPS = ["add", "mul", "neg", "self_mul", "astype", "pickle", "copy", "where", "sqrt", "transpose", "compare", "use", "pickle"]
 
 
 def gen_slice(rng, n):
@@ -252,6 +254,14 @@ def apply_op(xx, op):
         return xx.astype("float32")
     if k == "pickle":
         return pickle.loads(pickle.dumps(xx))
+    if k == "use":
+        gb = xx.odc.geobox
+        if gb is not None:
+            try:
+                gb.wld2pix(*gb.pix2wld(0.5, 0.5))
+            except Exception:  # noqa: BLE001 - only the side effect on cached state matters here
+                pass
+        return xx
     if k == "copy":
         return xx.copy(deep=True)
     if k == "where":
@@ -1158,6 +1168,11 @@ def search(out, tier):
                     run("history", {"spec": spec, "opts": opts,
                                     "history": [{"op": "isel", "dim": dim, "slice": s_}, {"op": rng.choice(ELEM_OPS)},
                                                 {"op": "isel", "dim": dim, "slice": [None, None, -1]}]})
+        # the registration is USED (cached helpers get built) before the array is pickled, sliced, pickled again
+        run("history", {"spec": spec, "opts": opts, "history": [{"op": "use"}, {"op": "pickle"}]})
+        run("history", {"spec": spec, "opts": opts,
+                        "history": [{"op": "use"}, {"op": "isel", "dim": "y", "slice": [1, None, 2]}, {"op": "use"}, {"op": "pickle"},
+                                    {"op": "add"}, {"op": "use"}, {"op": "copy"}, {"op": "pickle"}]})
         for my in (1, 2, 3):
             for mx in (1, 2, 3):
                 run("history", {"spec": spec, "opts": opts,
